@@ -196,6 +196,14 @@ def run_case(ns, mon, case):
             except RuntimeError:
                 if ti.requires_grad:
                     bad("guards:rejected-setter-left-flag-on", "the requires_grad setter refused an integer tensor but left it requiring grad")
+            for truthy in (np.True_, 1, np.int64(1)):
+                tj = T(np.array([1, 2, 3], dtype=dt))
+                try:
+                    tj.requires_grad = truthy          # e.g. the result of np.any(...)
+                except RuntimeError:
+                    pass
+                if tj.requires_grad:
+                    bad("guards:setter-integer", f"requires_grad = {truthy!r} made an integer tensor require grad")
             try:
                 ti.requires_grad = False            # switching the flag off is always possible
             except Exception as e:
